@@ -57,7 +57,9 @@ type uniqRig struct {
 	insts    map[string]genInst
 	cancel   context.CancelFunc
 	chkMu    sync.Mutex
-	chkFault bool // the next check fails
+	chkFault bool           // the next check fails
+	probe    genInst        // the plain generator of this id kind on a further manager (closing draws)
+	candOf   map[string]int // id -> candidate number, for the ids the script can produce
 }
 
 var errCheck = errors.New("repository check failed (injected)")
@@ -97,6 +99,10 @@ func newUniqRig(b *behaviour, procs []string) *uniqRig {
 	for _, c := range b.Rp {
 		r.repo[r.kind.idOf(c)] = true
 	}
+	r.candOf = map[string]int{}
+	for c := 1; c <= 8; c++ {
+		r.candOf[r.kind.idOf(c)] = c
+	}
 	chkInt := func(v int64) (bool, error) { return r.check(strconv.FormatInt(v, 10)) }
 	for _, p := range procs {
 		in := instOf(b.Lay, p)
@@ -129,6 +135,11 @@ func newUniqRig(b *behaviour, procs []string) *uniqRig {
 			panic("uniq api " + b.API)
 		}
 	}
+	var pst storage.Storage = r.mark
+	if b.Store == "hybrid" {
+		pst = hybrid.NewWithSharedCache(ctx, doubles.NewStore("cache-q", r.s), r.mark, nil, hybrid.DefaultConfig())
+	}
+	r.probe = newInst("mgr", r.kind, pst, ctx, false)
 	return r
 }
 
@@ -179,7 +190,11 @@ func driveUniq(env *fw.Env, b *behaviour) *fw.Trace {
 		if a.op == "Rel" {
 			res.id = a.id
 		}
-		t.Events = append(t.Events, fw.Event{"ev": "Ret", "p": a.p, "op": a.op, "ok": res.ok, "id": res.id, "err": res.err})
+		ev := fw.Event{"ev": "Ret", "p": a.p, "op": a.op, "ok": res.ok, "id": res.id, "err": res.err}
+		if a.assumed {
+			ev["assumed"] = true
+		}
+		t.Events = append(t.Events, ev)
 	}
 	finish := func(note string) *fw.Trace {
 		if !r.s.Drain(10 * time.Second) {
@@ -187,6 +202,39 @@ func driveUniq(env *fw.Env, b *behaviour) *fw.Trace {
 		}
 		for _, a := range started {
 			logRet(a)
+		}
+		// closing suffix (model-valid: calls of a further caller q on its own manager, all checks "free"):
+		// every id that is outstanding now is drawn once more by another generator on the same store - it
+		// must be refused (the scripted source then goes on with a fresh candidate)
+		outst := map[string]bool{}
+		var order []string
+		for _, e := range t.Events {
+			id, _ := e["id"].(string)
+			switch {
+			case e["ev"] == "Ret" && e["op"] == "Gen" && e["ok"] == true:
+				if !outst[id] {
+					order = append(order, id)
+				}
+				outst[id] = true
+			case e["ev"] == "Call" && e["op"] == "Rel":
+				delete(outst, id)
+			}
+		}
+		for _, id := range order {
+			if !outst[id] {
+				continue
+			}
+			c, ok := r.candOf[id]
+			if !ok {
+				continue // (an id the script did not choose: nothing to aim at)
+			}
+			src := &source{typ: r.kind.typ}
+			src.push(c)
+			t.Events = append(t.Events, fw.Event{"ev": "Call", "p": "q", "op": "Gen", "id": ""})
+			unbind := disp.bind(src)
+			res := safeGen(r.probe)
+			unbind()
+			t.Events = append(t.Events, fw.Event{"ev": "Ret", "p": "q", "op": "Gen", "ok": res.ok, "id": res.id, "err": res.err})
 		}
 		t.Events = append(t.Events, fw.Event{"ev": "Snap", "markers": r.markers(), "quiet": true})
 		t.Note = note
@@ -302,6 +350,7 @@ func driveUniq(env *fw.Env, b *behaviour) *fw.Trace {
 				r.chkMu.Lock()
 				r.chkFault = true
 				r.chkMu.Unlock()
+				a.assumed = true
 			}
 			ns, _ := r.s.Step(a.name)
 			switch st.R {
